@@ -266,9 +266,9 @@ func c13Channel(seq bool) {
 	if srcCap > 0 && simrt.Chance(1, 2) {
 		preload = simrt.DrawRange(0, srcCap)
 	}
-	parentKind := simrt.Draw(3) // 0 nil, 1 Background, 2 cancellable
+	parentKind := simrt.Draw(4) // 0 nil, 1 Background, 2 cancellable, 3 ends with DeadlineExceeded
 	closer := simrt.Draw(4)     // 0,1 none; 2 a task calls Close; 3 a task cancels the parent
-	if closer == 3 && parentKind != 2 {
+	if closer == 3 && parentKind < 2 {
 		closer = 2
 	}
 	closerAt := simrt.DrawRange(0, 20)
@@ -351,6 +351,12 @@ func c13Channel(seq bool) {
 	case 2:
 		p, c := context.WithCancel(context.Background())
 		parent, parentCancel = p, c
+	case 3:
+		// a parent whose end is reported as DeadlineExceeded (as a deadline context's is): the Channel's
+		// own context then carries that error for good, also after an explicit Close
+		p := &c13DeadlineParent{done: make(chan struct{})}
+		parent, parentCancel = p, p.expire
+		simrt.Probe("parent_ends_with_deadline_exceeded")
 	}
 	defer parentCancel()
 	ch, err := bigbuff.NewChannel(parent, rate, source)
@@ -625,6 +631,12 @@ func c13Channel(seq bool) {
 			simrt.Fault("ctx_cancel")
 			inv := simrt.Stamp()
 			parentCancel()
+			if parentKind == 3 {
+				// the end of a parent that is not a standard library context reaches the Channel's own
+				// context through a goroutine of package context, at some point after this call: the
+				// event is complete, at the latest, once Done is closed
+				<-ch.Done()
+			}
 			record(nClients, c13ParentCancel, inv, simrt.Stamp(), c13Out{})
 		}()
 	}
@@ -712,5 +724,29 @@ func c13Channel(seq bool) {
 		simrt.SetData(hist)
 	} else {
 		simrt.Probe("history_too_long")
+	}
+}
+
+// c13DeadlineParent is a context that ends with context.DeadlineExceeded when expire is called.
+type c13DeadlineParent struct {
+	mu   sync.Mutex
+	done chan struct{}
+	err  error
+}
+
+func (c *c13DeadlineParent) Deadline() (time.Time, bool) { return time.Time{}, false }
+func (c *c13DeadlineParent) Done() <-chan struct{}       { return c.done }
+func (c *c13DeadlineParent) Value(any) any               { return nil }
+func (c *c13DeadlineParent) Err() error {
+	c.mu.Lock()
+	defer c.mu.Unlock()
+	return c.err
+}
+func (c *c13DeadlineParent) expire() {
+	c.mu.Lock()
+	defer c.mu.Unlock()
+	if c.err == nil {
+		c.err = context.DeadlineExceeded
+		close(c.done)
 	}
 }
